@@ -57,7 +57,7 @@ impl GenerationCache {
         events: &[EventInfo],
         config: &GenerateConfig,
     ) -> Result<Self, CacheError> {
-        let commands_hash = Self::hash_commands(commands)?;
+        let commands_hash = Self::hash_commands(commands, config.should_visualize_deps())?;
         let structs_hash = Self::hash_structs(structs)?;
         let config_hash = Self::hash_config(config)?;
         let events_hash = Self::hash_events(events)?;
@@ -200,7 +200,13 @@ impl GenerationCache {
     }
 
     /// Generate a deterministic hash of commands
-    fn hash_commands(commands: &[CommandInfo]) -> Result<String, CacheError> {
+    ///
+    /// `with_line_numbers`: dependency-graph.txt prints the line of every command,
+    /// so when the visualisation is requested a moved command changes the output.
+    fn hash_commands(
+        commands: &[CommandInfo],
+        with_line_numbers: bool,
+    ) -> Result<String, CacheError> {
         // Create a serializable representation
         #[derive(Serialize)]
         struct CommandHashData<'a> {
@@ -212,6 +218,7 @@ impl GenerationCache {
             channels: Vec<ChannelHashData<'a>>,
             // #[serde(rename_all = "...")] on the command changes the parameter keys
             serde_rename_all: Option<String>,
+            line_number: Option<usize>,
         }
 
         #[derive(Serialize)]
@@ -254,6 +261,7 @@ impl GenerationCache {
                     })
                     .collect(),
                 serde_rename_all: cmd.serde_rename_all.as_ref().map(|r| format!("{:?}", r)),
+                line_number: with_line_numbers.then_some(cmd.line_number),
             })
             .collect();
 
@@ -346,6 +354,7 @@ impl GenerationCache {
             type_mappings: Option<std::collections::BTreeMap<&'a String, &'a String>>,
             default_parameter_case: &'a str,
             default_field_case: &'a str,
+            visualize_deps: bool,
         }
 
         let hash_data = ConfigHashData {
@@ -356,6 +365,7 @@ impl GenerationCache {
             type_mappings: config.type_mappings.as_ref().map(|m| m.iter().collect()),
             default_parameter_case: &config.default_parameter_case,
             default_field_case: &config.default_field_case,
+            visualize_deps: config.should_visualize_deps(),
         };
 
         let json = serde_json::to_string(&hash_data)?;
